@@ -205,14 +205,6 @@ def oracle_listing_on_file(p, text, case=None):
         return [D(f"C19:listing:raises:{type(e).__name__}@{sut_location(e.__traceback__)}", f"{type(e).__name__}: {str(e)[:160]} on {text[:200]!r}")]
     exp, n, classes = expected_listing(text)
     case["_classes"] = classes
-    got_lists = {"base-pair": bi.basePairs, "stacking": bi.stackings, "base-ribose": bi.baseRiboseInteractions,
-                 "base-phosphate": bi.basePhosphateInteractions, "other": bi.otherInteractions}
-    total = sum(len(v) for v in got_lists.values())
-    if total != n:
-        out.append(D("C19:listing:interaction-count", f"{total} interactions for {n} lines with two well-formed unit ids in {text[:300]!r}"))
-    # match each expected entry, in order, to the head of one of the acceptable category lists
-    cursors = {k: 0 for k in got_lists}
-
     def ident(nt):
         a = nt.auth
         return (a.chain, a.number, a.icode, a.name) if a is not None else None
@@ -228,22 +220,144 @@ def oracle_listing_on_file(p, text, case=None):
             return it.bph.value if it.bph is not None else None
         return None
 
+    lists = {"base-pair": bi.basePairs, "stacking": bi.stackings, "base-ribose": bi.baseRiboseInteractions,
+             "base-phosphate": bi.basePhosphateInteractions, "other": bi.otherInteractions}
+    got_lists = {cat: [(ident(it.nt1), ident(it.nt2), cls_of(cat, it), it.nt1.label is None and it.nt2.label is None) for it in lst]
+                 for cat, lst in lists.items()}
+    return out + match_listing("listing", exp, n, got_lists, text)
+
+
+def match_listing(tag, exp, n, got_lists, text):
+    """got_lists: category -> [(unit1, unit2, class value, no-label flag)] in the order the importer filed them"""
+    out = []
+    total = sum(len(v) for v in got_lists.values())
+    if total != n:
+        out.append(D(f"C19:{tag}:interaction-count", f"{total} interactions for {n} lines with two well-formed unit ids in {text[:300]!r}"))
+    # match each expected entry, in order, to the head of one of the acceptable category lists
+    cursors = {k: 0 for k in got_lists}
     for u1, u2, acc in exp:
         placed = False
         for cat, cl in sorted(acc, key=str):
             lst = got_lists[cat]
             c = cursors[cat]
             if c < len(lst):
-                it = lst[c]
-                if ident(it.nt1) == u1 and ident(it.nt2) == u2 and cls_of(cat, it) == cl and it.nt1.label is None and it.nt2.label is None:
+                g1, g2, gcl, nolabel = lst[c]
+                if g1 == u1 and g2 == u2 and gcl == cl and nolabel:
                     cursors[cat] += 1
                     placed = True
                     break
         if not placed:
-            out.append(D("C19:listing:line-not-imported-faithfully",
+            out.append(D(f"C19:{tag}:line-not-imported-faithfully",
                          f"line {u1} -> {u2} with acceptable {sorted(acc, key=str)} is not the next entry of any acceptable list"))
             break
     return out
+
+
+# ---------------------------------------------------------------------------
+# command line: adapter.main --tool fr3d|dssr --json/--csv
+
+
+def _run_adapter_cli(argv):
+    import contextlib
+    import io
+    import sys
+
+    import rnapolis.adapter as ad
+
+    old = sys.argv
+    buf, err = io.StringIO(), io.StringIO()
+    try:
+        sys.argv = ["adapter"] + argv
+        with contextlib.redirect_stdout(buf), contextlib.redirect_stderr(err):
+            ad.main()
+    finally:
+        sys.argv = old
+    return buf.getvalue()
+
+
+def oracle_cli(case):
+    """adapter.main on a corpus structure and a generated FR3D listing over that structure's own residues: the JSON it
+    writes must file every line exactly as the listing oracle says (same oracle as for parse_fr3d_output)"""
+    import shutil
+
+    s3 = corpus.structure(case["file"])
+    residues = [r for r in s3.residues if r.auth is not None]
+    if len(residues) < 2:
+        raise HarnessError("corpus file without author identities: " + case["file"])
+
+    def unit(k, form):
+        a = residues[k % len(residues)].auth
+        ic = a.icode or ""
+        if form == 0 and not ic:
+            return f"XXXX|1|{a.chain}|{a.name}|{a.number}"
+        if form == 1:
+            return f"XXXX|1|{a.chain}|{a.name}|{a.number}|||{ic}|1_555"
+        return f"XXXX|1|{a.chain}|{a.name}|{a.number}|||{ic}"
+
+    lines = []
+    for e in case["entries"]:
+        if e.get("raw") is not None:
+            lines.append(e["raw"])
+            continue
+        k1, k2 = e["r1"], e["r2"]
+        if k1 % len(residues) == k2 % len(residues):
+            k2 = k1 + 1
+        lines.append(f"{unit(k1, e['form'])}\t{e['label']}\t{unit(k2, e['form'])}\t0")
+    text = "\n".join(lines) + "\n"
+    os.makedirs(WORK_DIR, exist_ok=True)
+    base = os.path.join(WORK_DIR, f"c19cli_{os.getpid()}")
+    shutil.rmtree(base, ignore_errors=True)
+    os.makedirs(base)
+    out = []
+    try:
+        listing = os.path.join(base, "listing.txt")
+        with open(listing, "w") as f:
+            f.write(text)
+        jpath = os.path.join(base, "out.json")
+        argv = [os.path.join(corpus.TESTS, case["file"]), "--external", listing, "--tool", "fr3d", "--json", jpath] + list(case.get("flags", []))
+        try:
+            _run_adapter_cli(argv)
+        except SystemExit as e:
+            if e.code not in (0, None):
+                return [D("C19:cli:exit", f"adapter exited with {e.code}")]
+        except Exception as e:
+            from rnaverif.runner import sut_location
+            loc = sut_location(e.__traceback__)
+            return [D(f"C19:cli:raises:{type(e).__name__}@{loc}", f"{type(e).__name__}: {str(e)[:160]} on {text[:200]!r}")]
+        with open(jpath) as f:
+            doc = json.load(f)
+    finally:
+        shutil.rmtree(base, ignore_errors=True)
+    bi = doc.get("baseInteractions") or {}
+
+    def ident(nt):
+        a = (nt or {}).get("auth")
+        return (a["chain"], a["number"], a["icode"], a["name"]) if a else None
+
+    keys = {"base-pair": ("basePairs", "lw"), "stacking": ("stackings", "topology"), "base-ribose": ("baseRiboseInteractions", "br"),
+            "base-phosphate": ("basePhosphateInteractions", "bph"), "other": ("otherInteractions", None)}
+    got_lists = {}
+    for cat, (key, field) in keys.items():
+        got_lists[cat] = [(ident(it.get("nt1")), ident(it.get("nt2")), it.get(field) if field else None,
+                           (it.get("nt1") or {}).get("label") is None and (it.get("nt2") or {}).get("label") is None)
+                          for it in bi.get(key, [])]
+    exp, n, classes = expected_listing(text)
+    case["_classes"] = classes
+    return out + match_listing("cli", exp, n, got_lists, text)
+
+
+def st_cli(files):
+    from hypothesis import strategies as st
+
+    labels = st.one_of(
+        st.sampled_from(LW18 + list(STACK) + ["0BPh", "4BPh", "9BPh", "0BR", "7BR", "ncWW", "cWWa", "ncSs", "tsS", "CWW", "perp", "bif", "10BPh"]),
+        st.text(alphabet=SIGMA, min_size=1, max_size=5))
+    entry = st.one_of(
+        st.fixed_dictionaries({"r1": st.integers(0, 400), "r2": st.integers(0, 400), "label": labels, "form": st.integers(0, 2)}),
+        st.fixed_dictionaries({"raw": st.sampled_from(["# comment", "", "XXXX|1|A|G\tcWW\tXXXX|1|A|C|2", "A.G1\tcWW\tA.C2", "XXXX|1|A|G|x\tcWW\tXXXX|1|A|C|2\t0", "junk"])}),
+    )
+    return st.fixed_dictionaries({"kind": st.just("cli"), "file": st.sampled_from(files), "entries": st.lists(entry, min_size=1, max_size=10),
+                                  "flags": st.sampled_from([[], [], ["-a"], ["-e"], ["-f"]])})
 
 
 def st_listing():
@@ -455,6 +569,8 @@ def oracle(case):
         return oracle_listing(case)
     if k == "dssr":
         return oracle_dssr(case)
+    if k == "cli":
+        return oracle_cli(case)
     if k == "label":
         from rnapolis.adapter import unify_classification
         label = case["label"]
@@ -500,6 +616,8 @@ def plan(tier, seed):
     specs += [{"kind": "listing", "examples": ex, "seed": seed * 1000 + k} for k in range(n)]
     n, ex = (8, 150) if tier == "quick" else (16, 1500)
     specs += [{"kind": "dssr", "examples": ex, "seed": seed * 1000 + 100 + k, "files": corpus.SMALL[:6]} for k in range(n)]
+    n, ex = (4, 40) if tier == "quick" else (16, 500)
+    specs += [{"kind": "cli", "examples": ex, "seed": seed * 1000 + 200 + k, "files": corpus.SMALL[:6]} for k in range(n)]
     # coverage-guided tier: empty corpus and a corpus of small valid inputs
     if tier == "quick":
         specs += [{"kind": "atheris", "runs": 30000, "seed": seed * 10 + 1, "seeded_corpus": True},
@@ -595,6 +713,10 @@ def run_shard(spec) -> ShardResult:
     elif spec["kind"] == "listing":
         run_hypothesis(PROP_ID, st_listing(), oracle, seed=spec["seed"], max_examples=spec["examples"], result=res,
                        to_json=to_json, classify=classify_listing)
+        res.exhaustive = False
+    elif spec["kind"] == "cli":
+        run_hypothesis(PROP_ID, st_cli(spec["files"]), oracle, seed=spec["seed"], max_examples=spec["examples"], result=res,
+                       to_json=to_json, classify=lambda c: (classify_listing(c)[0], ["cli"] + classify_listing(c)[1][1:] + ["cli-flag:" + "".join(c.get("flags", [])) ]), sample_cap=1)
         res.exhaustive = False
     elif spec["kind"] == "dssr":
         run_hypothesis(PROP_ID, st_dssr(spec["files"]), oracle, seed=spec["seed"], max_examples=spec["examples"], result=res,
